@@ -3,9 +3,14 @@ import glob
 import os
 import random
 
+import sys
+
 import vlib
 from vlib import Case, Problem
 import gen_progargs as G
+
+sys.path.insert(0, os.path.join(vlib.VERIF, "translate"))
+import handler_alloc  # noqa: E402
 
 COMPONENT = "progargs"
 DRIVER = "model-progargs"
@@ -32,7 +37,10 @@ PROPERTIES = {
     "C03": {"lean_module": "CelmaVerif.Props.C03", "kind": "functional", "trusted": TRUST,
             "assumptions": ["claimed for the modelled fragment only",
                             "order-sensitive rules in the documented sense: requiring/excluding argument first"]},
-    "C04": {"lean_module": "CelmaVerif.Props.C04", "kind": "relational", "trusted": TRUST + [
+    "C04": {"lean_module": "CelmaVerif.Props.C04", "kind": "relational", "translators": [handler_alloc.translate],
+            "trusted": TRUST + [
+                "translate/handler_alloc.py (regex over handler.cpp: size expression and owner type of the two "
+                "program-name copies); ArgString2Array::copyArguments as modelled in Model/ArgString.lean (C07_argv_safe*)",
                 "heap discipline of std:: and Boost objects used by the handler is not modelled: that part rests on the "
                 "ASan/UBSan verdict of the correspondence runs"],
             "assumptions": ["argc >= 1 (a program name is always present)"]},
